@@ -25,12 +25,14 @@ func c16(c *Ctx) {
 		"Interleaving effects on order and libdisco framing are not decided."
 	c.Assume("libdisco delivers each written message as one Read (message framing of the encrypted transport; conn2.receive ignores Read counts)")
 	c.Assume("one session goroutine per agent connection (ordering across goroutines not decided)")
+	c16Prog = c.P
 	c16TypeTables(c)
 	c16Codec(c)
 	c16Primitives(c)
 	c16Roles(c)
 	c16Connections(c)
 	c16Dispatch(c)
+	c16Wakeup(c)
 }
 
 func c16TypeTables(c *Ctx) {
@@ -348,7 +350,13 @@ func c16Primitives(c *Ctx) {
 				}
 			}
 		}
-		c.Check(s == "ReadUint16;Read" && okLen, "codec-primitives", shortFn(fn)+" layout", p.Pos(fn.Pos()), "16-bit length then that many bytes", shortFn(fn)+" does not read a 16-bit length and then exactly that many bytes: "+s)
+		switch {
+		case s == "ReadUint16;Read" && okLen:
+			// the decoder sits on a bufio.Reader: one Read returns at most what is buffered
+			c.Violate("codec-primitives", shortFn(fn)+" layout", p.Pos(fn.Pos()), shortFn(fn)+" takes a single Read for the whole length-prefixed field; the underlying bufio.Reader returns at most its buffered bytes (4096), so longer fields decode with a zero-filled tail: use io.ReadFull")
+		default:
+			c.Check(s == "ReadUint16;ReadFull" && okLen, "codec-primitives", shortFn(fn)+" layout", p.Pos(fn.Pos()), "16-bit length then exactly that many bytes (io.ReadFull)", shortFn(fn)+" does not read a 16-bit length and then exactly that many bytes: "+s)
+		}
 	}
 	// WriteString = WriteData([]byte(s))
 	okWS := false
@@ -454,7 +462,35 @@ func fieldOrExpr(v ssa.Value) string {
 }
 
 // roleOf classifies a value as local / remote / unknown by its resolved origin.
+var c16Prog *Program
+
 func roleOf(v ssa.Value) string {
+	// a constructor's parameter has the role every call site gives it
+	if pr, ok := Unwrap(v).(*ssa.Parameter); ok && c16Prog != nil && pr.Parent().Signature.Recv() == nil {
+		idx := -1
+		for i, q := range pr.Parent().Params {
+			if q == pr {
+				idx = i
+			}
+		}
+		role, n := "", 0
+		for _, g := range c16Prog.FuncsIn(agentRel) {
+			for _, call := range Calls(g) {
+				if call.Common().StaticCallee() != pr.Parent() || idx >= len(call.Common().Args) {
+					continue
+				}
+				r := roleOf(call.Common().Args[idx])
+				if n > 0 && r != role {
+					return "?mixed roles at the call sites of " + pr.Parent().Name()
+				}
+				role = r
+				n++
+			}
+		}
+		if n > 0 {
+			return role
+		}
+	}
 	s := Render(Unwrap(v))
 	// strip type assertions
 	s = strings.TrimSuffix(strings.TrimSuffix(s, ".(*net.UDPAddr)"), ".(*net.TCPAddr)")
@@ -597,6 +633,27 @@ func c16Dispatch(c *Ctx) {
 		return
 	}
 	get := p.Method(agentRel, "Connections", "Get")
+	// the connection table belongs to this agent session: every Connections method called in the session loop (and its
+	// closures) has as receiver a table created in this very call of serv, never a field of the listener or a global
+	nTab := 0
+	for _, fn := range allFuncs(serv) {
+		for _, call := range Calls(fn) {
+			f := call.Common().StaticCallee()
+			if f == nil || RecvTypeName(f) != "Connections" || len(call.Common().Args) == 0 {
+				continue
+			}
+			nTab++
+			root := c15Root(call.Common().Args[0])
+			a, isAlloc := root.(*ssa.Alloc)
+			okT := isAlloc && a.Parent() == serv
+			why := ""
+			if !okT {
+				why = "the connection table used by an agent session is " + RenderN(root, 3) + ", which is not created by this session: every agent's virtual connections are then in one table, so one agent disconnecting (its teardown closes the table's connections) ends the connections of all agents, and identical address pairs of two agents collide"
+			}
+			c.Check(okT, "connections-per-session", fmt.Sprintf("Connections.%s receiver in %s", f.Name(), shortFn(fn)), p.InstrPos(call), "a table allocated in this call of serv", why)
+		}
+	}
+	c.Check(nTab >= 3, "connections-per-session", "table uses in the session loop", p.Pos(serv.Pos()), fmt.Sprint(nTab), "fewer than three uses of the session's connection table found")
 	// data: conn.receive(v.Payload) where conn = conns.Get(v.Laddr, v.Raddr) of the same v, under conn != nil
 	nrecv, nclose, ndel := 0, 0, 0
 	for _, call := range Calls(serv) {
@@ -693,7 +750,7 @@ func c16Dispatch(c *Ctx) {
 				c.Check(locked, "conn-buffer", fmt.Sprintf("Read re-slice[%d] locked", n), p.InstrPos(st), "", "the receive buffer is re-sliced without holding the connection mutex")
 			}
 		}
-		c.Check(n == 2, "conn-buffer", "Read re-slice sites", p.Pos(rd.Pos()), "", fmt.Sprintf("expected two buffer re-slices in Read, found %d", n))
+		c.Check(n >= 1, "conn-buffer", "Read re-slice sites", p.Pos(rd.Pos()), "", "Read never drops the copied prefix from the receive buffer")
 		for i, r := range Returns(rd) {
 			rv := RetVals(r)
 			if IsNilConst(rv[1]) {
